@@ -165,8 +165,34 @@ def rand_case(rng, thorough=False):
     job = rng.choice(P)
     if rng.random() < 0.03 and any(envs):
         job = None
+    if rng.random() < 0.3:
+        # description and user-interface hints: what a definition says about its presentation takes no part in the merge
+        envs = [decorate(rng, e) for e in envs]
+        job = decorate(rng, job)
     # bias: make the definitions relate (shared allowed lists / nested bounds) half of the time
     return case(envs, job)
+
+
+def decorate(rng, d):
+    if d is None or rng.random() < 0.4:
+        return d
+    q = dict(d)
+    if rng.random() < 0.3:
+        q["description"] = "about " + q["type"]
+    ui = {"INT": ["SPIN_BOX", "DROPDOWN_LIST", "HIDDEN"], "FLOAT": ["SPIN_BOX", "DROPDOWN_LIST", "HIDDEN"], "STRING": ["LINE_EDIT", "MULTILINE_EDIT", "DROPDOWN_LIST", "CHECK_BOX", "HIDDEN"],
+          "PATH": ["CHOOSE_INPUT_FILE", "CHOOSE_OUTPUT_FILE", "CHOOSE_DIRECTORY", "DROPDOWN_LIST", "HIDDEN"]}[q["type"]]
+    u = {"control": rng.choice(ui)}
+    if rng.random() < 0.3:
+        u["label"] = "L"
+    if u["control"] in ("CHOOSE_INPUT_FILE", "CHOOSE_OUTPUT_FILE") and rng.random() < 0.7:
+        if rng.random() < 0.7:
+            u["fileFilters"] = [{"label": "Text", "patterns": ["*.txt", "*.md"]}][: rng.choice([1, 1, 0])] or [{"label": "Any", "patterns": ["*"]}]
+        if rng.random() < 0.5:
+            u["fileFilterDefault"] = {"label": "All", "patterns": ["*.*"]}
+    if u["control"] == "SPIN_BOX" and rng.random() < 0.5:
+        u["singleStepDelta"] = 1
+    q["userInterface"] = u
+    return q if jc.decoded("job", [q]) is not None else d
 
 
 def k(envs, job):
@@ -222,7 +248,7 @@ class C12(core.PropBase):
     chunk_size = 60
     theorem_for_mismatch = "C12_sound / C12_complete / C12_default / C12_refuse (model = implementation correspondence; conjunction of the individual definitions)"
     assumptions = [
-        "definitions enter the model as DECODED by decode_job_template / decode_environment_template; the default enters as the text str(default) and every default text is checked to parse back (wf_default) on every case",
+        "bounds, lists and defaults of a definition enter the model as DECODED by decode_job_template / decode_environment_template, its type / objectType / dataFlow as the DOCUMENT has them (a decoder that rewrites them is seen); the default enters as the text str(default) and every default text is checked to parse back (wf_default) on every case",
         "one shared parameter name; merge order = environment templates in the order given, job template last",
         "probe strings of INT/FLOAT parameters are in the numeral domain of Numerals.v; Numerals.v is compared with Python's int()/Decimal() on every run (probe spellings + random stream; a disagreement is a harness error)",
         "PATH probes are '', absolute or plain relative names (joining is C11's)",
@@ -243,6 +269,35 @@ class C12(core.PropBase):
                 pairs = rng.sample(pairs, quota)
             for a, b in pairs:
                 yield case([a], b)
+        # 1b. PATH definitions that differ in objectType / dataFlow AND in what they say about presentation (control, file
+        #     filters, description): all ordered pairs, and triples with a plain third definition in every position
+        uis = [None, {"control": "CHOOSE_INPUT_FILE"}, {"control": "CHOOSE_INPUT_FILE", "fileFilters": [{"label": "Text", "patterns": ["*.txt"]}]},
+               {"control": "CHOOSE_OUTPUT_FILE", "fileFilterDefault": {"label": "All", "patterns": ["*.*"]}}, {"control": "CHOOSE_DIRECTORY"}, {"control": "HIDDEN"}, {"control": "DROPDOWN_LIST"}]
+        pdefs = []
+        for ot in OBJ:
+            for fl in (None, "IN"):
+                for u in uis:
+                    ex = {}
+                    if ot:
+                        ex["objectType"] = ot
+                    if fl:
+                        ex["dataFlow"] = fl
+                    if u:
+                        ex["userInterface"] = u
+                        if u["control"] == "DROPDOWN_LIST":
+                            continue
+                    d = mkdef("PATH", extra=ex)
+                    if jc.decoded("job", [d]) is not None:
+                        pdefs.append(d)
+        for a in pdefs:
+            for b in pdefs:
+                yield case([a], b)
+        for _ in range(3000 if thorough else 300):
+            a, b = rng.choice(pdefs), rng.choice(pdefs)
+            c = mkdef("PATH", extra={k: v for k, v in a.items() if k in ("objectType", "dataFlow")})
+            trio = [a, b, c]
+            rng.shuffle(trio)
+            yield case(trio[:2], trio[2])
         # 2. random 0-4 environment templates
         for _ in range(120000 if thorough else 9000):
             yield rand_case(rng, thorough)
@@ -338,7 +393,8 @@ class C12(core.PropBase):
         if parts is None or not parts[2]:
             return []
         envs, jt, pds = parts
-        ds = [jc.def_sx(p) for p in pds]
+        raws = [e for e in case["envs"] if e] + ([case["job"]] if case["job"] else [])
+        ds = [jc.def_sx(p, r) for p, r in zip(pds, raws)] if len(raws) == len(pds) else [jc.def_sx(p) for p in pds]
         for vals in self._value_sets(case):
             for v in vals.values():
                 if any(p.type.value in ("INT", "FLOAT") for p in pds) and not jc.small_exponent(v):
